@@ -235,7 +235,7 @@ def analyse(ctx, want_prefix: str):
             sibs[r] = sib
         if not carried:
             for r, sib in sorted(sibs.items()):
-                paths = run_body(interp, st, sib.cell, r)
+                paths = run_body(interp, st, sib.cell, r, None, {"parent": sib.parent, "base": sib.base})
                 merge_seen += check_paths(ob, st, sib, paths, r)
         else:
             # variables whose value survives from one iteration to the next: explore the reachable combinations of their values
@@ -248,7 +248,7 @@ def analyse(ctx, want_prefix: str):
                 key = work.pop()
                 vals, how = states[key]
                 for r, sib in sorted(sibs.items()):
-                    for p in run_body(interp, st, sib.cell, r, dict(vals)):
+                    for p in run_body(interp, st, sib.cell, r, dict(vals), {"parent": sib.parent, "base": sib.base}):
                         nxt = {k: p.carried.get(k) for k in carried}
                         nk = tuple(freeze(nxt[k]) for k in carried)
                         if nk not in states:
@@ -262,7 +262,7 @@ def analyse(ctx, want_prefix: str):
                 if any(k2[0] == "?" for k2 in key):
                     continue
                 for r, sib in sorted(sibs.items()):
-                    paths = run_body(interp, st, sib.cell, r, dict(vals))
+                    paths = run_body(interp, st, sib.cell, r, dict(vals), {"parent": sib.parent, "base": sib.base})
                     label = ", ".join(f"{k}={v[1]}" for k, v in zip(carried, key))
 
                     def ob2(rule, construct, state, where, detail, _l=label, _h=how, **kw):
@@ -406,7 +406,13 @@ def check_paths(ob, st: Structure, sib: Siblings, paths: List[BodyPath], r: int)
             from .absint import subst_value
             for sy in [sy for sy in x.syms() if sy.name == sib.A.name]:
                 x = subst_value(x, sy, 0)
-        stt, text = same_or_refuted(x, sib.parent, 0)
+        # the expected parent as this path knows it: a guard further down the path (e.g. a test on the emitted parent) may have
+        # narrowed face / segment / position, and the emitted form carries that knowledge
+        want_parent = same_symbol(p.watched["parent"]) if isinstance(p.watched.get("parent"), Lin) else sib.parent
+        if True in first:
+            for sy in [sy for sy in want_parent.syms() if sy.name == sib.A.name]:
+                want_parent = subst_value(want_parent, sy, 0)
+        stt, text = same_or_refuted(x, want_parent, 0)
         ob("C08.1", f"{tag}: merge path emits the parent of the group", stt, where, text)
         if True in first:
             ob("C08.2", f"{tag}: merge only when the cell is the first child of its parent", core.DISCHARGED, where,
@@ -458,7 +464,11 @@ def check_paths(ob, st: Structure, sib: Siblings, paths: List[BodyPath], r: int)
         unsure = []
         for j in range(1, sib.k):
             if j in eqs:
-                want = sib.base + sib.stride * j
+                base_here = same_symbol(p.watched["base"]) if isinstance(p.watched.get("base"), Lin) else sib.base
+                if at_zero:
+                    for sy in [sy for sy in base_here.syms() if sy.name == sib.A.name]:
+                        base_here = _subst(base_here, sy, 0)
+                want = base_here + sib.stride * j
                 got = eqs[j]
                 if at_zero:
                     for sy in [sy for sy in got.syms() if sy.name == sib.A.name]:
